@@ -124,6 +124,36 @@ def d1(db, rep, rule="D1-R-LOCK"):
 
 
 
+def compiler_state_fresh(db, rep, rule):
+    """Concurrent compiles are independent because everything a compile writes hangs off its own OrcCompiler (allocated in
+    orc_program_compile_full).  Every pointer field of the compiler that orc_compiler_compile_program sets must therefore point
+    at storage obtained for this compile (an allocator call), at the program / target it was handed, or at other storage of
+    the same compiler - never at a static or global buffer, which every compile in flight would share (code generation holds
+    no lock)."""
+    f = db.func("orc_compiler_compile_program", "orccompiler")
+    rep.saw(f)
+    n = 0
+    bad = None
+    for x in f.walk():
+        if x.k != "BinaryOperator" or x.op != "=":
+            continue
+        lp = access_path(x.c[0]) or ""
+        if not lp.startswith("compiler->") or "*" not in (strip_casts(x.c[0]).ty or ""):
+            continue
+        n += 1
+        r = strip_casts(x.c[1])
+        rv = root_var(r) if r is not None and r.k != "CallExpr" else None
+        if rv is not None and rv.get("dk") in ("global", "static_local"):
+            bad = (x, lp, rv.name)
+    rep.check(bad is None, rule, where(f), "compiler-pointer-fields",
+              "%d pointer fields of the compiler are set from allocations, arguments or the compiler itself" % n,
+              "orc_compiler_compile_program points `%s` at the process-wide `%s`: every compile running at the same time emits into (and copies its "
+              "result out of) the same storage, so a program gets another program's code, a mixture, or a spurious failure" %
+              (bad[1] if bad else "", bad[2] if bad else ""), line=bad[0].line if bad else None)
+    if n < 2:
+        raise AnalysisBroken("orc_compiler_compile_program sets only %d pointer fields of the compiler" % n)
+
+
 def lock_released_on_every_exit(db, rep, rule, tub):
     """every function of translation unit `tub` that takes the global mutex returns with it released, whatever the path
     (shared with C06: the failure paths of the code-memory allocator are exactly the ones a test never takes)"""
@@ -312,6 +342,7 @@ def run(ctx):
               "orc_once_leave (pre-C11 branch): value stored, then the full-barrier __sync operation that marks the state, then the unlock",
               "orc_once_leave (pre-C11 branch) does not store the value before the __sync operation that publishes the state, or unlocks before it")
 
+    compiler_state_fresh(db, rep, "D11-COMPILER-STATE-FRESH")
     # ---- D4 -------------------------------------------------------------------
     run_roots = ["orc_program_compile", "orc_program_compile_for_target", "orc_target_get_default", "orc_program_compile_full", "orc_executor_run", "orc_executor_run_backup", "orc_executor_emulate",
                  "orc_code_free", "orc_program_free", "orc_program_reset", "orc_parse_code", "orc_bytecode_from_program"]
